@@ -1,6 +1,7 @@
 package props
 
 import (
+	"math"
 	"bytes"
 	"context"
 	"database/sql"
@@ -101,7 +102,7 @@ func idsString(ids [][]byte) string {
 
 func TestC19_IdentitiesAndPointer(t *testing.T) {
 	rec := recorder("C19")
-	rec.AddRule("rapid state machine over one Gnosis keyper (real schema on pgfake; verif-tagged constructor): queues of 0..N transactions over 1-2 keyper sets with gas at MinGasPerTransaction / around EncryptedGasLimit/k / at and above the limit (always >= MinGasPerTransaction, the configured lower bound), pointer rows {absent, before, inside, at, beyond the queue end} x age {0, max, max+1, unknown}; actions: slot trigger (age increment as maybeTriggerDecryption does, then the real triggerDecryption), keys received (real DecryptionKeysHandler.HandleMessage), keys self-produced (real middleware SendMessage), restart (ResetAllTxPointerAges), queue grows. Oracle: reference selection written from the statement (pointer used; slot identity + queue entries from the pointer while cumulative gas <= limit, at least one; sorted, slot identity first); the trigger on the channel and the current_decryption_trigger row (slot, pointer, keccak of identities) equal the reference; a second keyper on a clone of the database produces a byte-identical list; after a keys message with k keys at pointer p the row is (p+k-1, age 0). non-trivial = selection stopped by the gas limit, used the at-least-one rule, or fell back to the queue length; distinct by history")
+	rec.AddRule("rapid state machine over one Gnosis keyper (real schema on pgfake; verif-tagged constructor): queues of 0..N transactions over 1-2 keyper sets with gas at MinGasPerTransaction / around EncryptedGasLimit/k / at and above the limit and, one in twelve, near 2^31 / 2^32 / 2^62 / 2^63-1 (always >= MinGasPerTransaction, the configured lower bound), pointer rows {absent, before, inside, at, beyond the queue end} x age {0, max, max+1, unknown}; actions: slot trigger (age increment as maybeTriggerDecryption does, then the real triggerDecryption), keys received (real DecryptionKeysHandler.HandleMessage; for the newest trigger, for the trigger before it - late keys - or for a made-up one), keys self-produced (real middleware SendMessage), restart (ResetAllTxPointerAges), queue grows. Oracle: reference selection written from the statement (pointer used; slot identity + queue entries from the pointer while cumulative gas <= limit, at least one; sorted, slot identity first); the trigger on the channel and the current_decryption_trigger row (slot, pointer, keccak of identities) equal the reference; a second keyper on a clone of the database produces a byte-identical list; after a keys message with k keys at pointer p the row is (p+k-1, age 0). non-trivial = selection stopped by the gas limit, used the at-least-one rule, or fell back to the queue length; distinct by history")
 	rec.Assume("pgfake; transaction identity prefixes are non-zero so the slot identity sorts first (the SSZ type and contract fix sizes; see DESIGN C19)")
 	ctx := context.Background()
 	runRapid(t, N(1000, 500000), func(rt *rapid.T) {
@@ -138,6 +139,7 @@ func TestC19_IdentitiesAndPointer(t *testing.T) {
 		keysHandler := gnosis.VerifNewHandlers(n.Pool)[1]
 		var desc []string
 		txCounter := 0
+		hugeGas := false
 		grow := func(cfg int64, k int) {
 			for i := 0; i < k; i++ {
 				txCounter++
@@ -145,6 +147,11 @@ func TestC19_IdentitiesAndPointer(t *testing.T) {
 				lim := model.GasLimit
 				// several combinations sum to exactly the limit (boundary of the "within the limit" rule)
 				gas := []uint64{21_000, lim - 21_000, lim / 2, lim / 2, lim / 4, lim / 4, lim, lim + 1}[gasKind]
+				if rapid.IntRange(0, 11).Draw(rt, fmt.Sprintf("gasHuge%d", txCounter)) == 0 {
+					// the contract takes any uint256 and the syncer stores whatever fits the bigint column
+					gas = rapid.SampledFrom([]uint64{math.MaxInt64, math.MaxInt64 - 1, math.MaxInt64 - lim, 1 << 62, 1<<62 + 1, 1 << 32, 1<<32 - 1, 1 << 31}).Draw(rt, fmt.Sprintf("gasHugeV%d", txCounter))
+					hugeGas = true
+				}
 				if gas < 21_000 {
 					gas = 21_000
 				}
@@ -210,11 +217,15 @@ func TestC19_IdentitiesAndPointer(t *testing.T) {
 		var labels []string
 		slot := uint64(rapid.IntRange(1, 1<<20).Draw(rt, "slot0"))
 		steps := rapid.IntRange(2, 12).Draw(rt, "steps")
-		var lastTrigger *struct {
+		type trigRec struct {
 			cfg     int64
 			pointer int64
 			ids     [][]byte
+			slot    uint64
 		}
+		var lastTrigger *trigRec
+		prevTrigger := map[int64]*trigRec{} // per keyper set: the trigger before the newest one
+		newestTrigger := map[int64]*trigRec{}
 		for st := 0; st < steps; st++ {
 			es := sets[rapid.IntRange(0, len(sets)-1).Draw(rt, "whichSet")]
 			cfg := int64(es.KeyperConfigIndex)
@@ -291,18 +302,26 @@ func TestC19_IdentitiesAndPointer(t *testing.T) {
 					nontrivial = true
 					labels = append(labels, how...)
 				}
-				lastTrigger = &struct {
-					cfg     int64
-					pointer int64
-					ids     [][]byte
-				}{cfg, wantPtr, wantIDs}
+				lastTrigger = &trigRec{cfg, wantPtr, wantIDs, slot}
+				if o := newestTrigger[cfg]; o != nil {
+					prevTrigger[cfg] = o
+				}
+				newestTrigger[cfg] = lastTrigger
 			case "keys-received", "keys-sent":
 				// a keys message releasing k identities at pointer p (as honest keypers produce for a trigger)
 				p := int64(rapid.IntRange(0, 20).Draw(rt, "kp"))
 				ids := [][]byte{refSlotIdentity(slot)}
+				kslot := slot
 				if lastTrigger != nil && lastTrigger.cfg == cfg && rapid.Bool().Draw(rt, "forLastTrigger") {
 					p, ids = lastTrigger.pointer, lastTrigger.ids
+				} else if o := prevTrigger[cfg]; o != nil && rapid.Bool().Draw(rt, "forEarlierTrigger") {
+					// keys of the slot before arrive after the next slot's trigger
+					p, ids, kslot = o.pointer, o.ids, o.slot
+					labels = append(labels, "keys-of-an-earlier-slot-after-a-newer-trigger")
 				} else {
+					if d := rapid.SampledFrom([]int{0, 0, 1, 3}).Draw(rt, "kslotBack"); uint64(d) < slot {
+						kslot = slot - uint64(d)
+					}
 					k := rapid.IntRange(0, 4).Draw(rt, "kk")
 					for i := 0; i < k; i++ {
 						pre := crypto.Keccak256([]byte{byte(i)})
@@ -316,7 +335,7 @@ func TestC19_IdentitiesAndPointer(t *testing.T) {
 				for _, id := range ids {
 					msg.Keys = append(msg.Keys, &p2pmsg.Key{IdentityPreimage: id, Key: []byte{1}})
 				}
-				msg.Extra = &p2pmsg.DecryptionKeys_Gnosis{Gnosis: &p2pmsg.GnosisDecryptionKeysExtra{Slot: slot, TxPointer: uint64(p), SignerIndices: []uint64{1, 2}, Signatures: [][]byte{{1}, {2}}}}
+				msg.Extra = &p2pmsg.DecryptionKeys_Gnosis{Gnosis: &p2pmsg.GnosisDecryptionKeysExtra{Slot: kslot, TxPointer: uint64(p), SignerIndices: []uint64{1, 2}, Signatures: [][]byte{{1}, {2}}}}
 				action := "keys-received"
 				var err error
 				if rapid.Bool().Draw(rt, "selfProduced") {
@@ -367,6 +386,9 @@ func TestC19_IdentitiesAndPointer(t *testing.T) {
 		}
 		if !checkEngine(t, rec, n) {
 			rt.Fatalf("inconclusive")
+		}
+		if hugeGas {
+			labels = append(labels, "queue-entry-with-gas-limit-near-an-integer-boundary")
 		}
 		sort.Strings(labels)
 		rec.Case(fmt.Sprintf("limit=%d maxAge=%d | %s", model.GasLimit, model.MaxAge, strings.Join(desc, " ; ")), nontrivial, dedup(labels)...)
